@@ -17,6 +17,19 @@ type bpEdge struct {
 	N        int
 	Start    int
 	Cnt      int
+	Exp      *bpExp // expected slice-level structure after the call (LinkedBuffer.tla), nil for BytePipe graphs
+}
+
+// slice-level structure: what LinkedBuffer.tla predicts and what the real buffers show
+type bpExp struct {
+	Free   []int   `json:"free"`
+	Ws     [][]int `json:"ws"` // writer slices [class, w]
+	Wi     int     `json:"wi"`
+	Rs     [][]int `json:"rs"` // reader slices [class, r, w]
+	Rwi    int     `json:"rwi"`
+	Pinned []int   `json:"pinned"`
+	Cur    bool    `json:"cur"`
+	Spare  int     `json:"spare"`
 }
 
 type bpConf struct {
@@ -48,6 +61,10 @@ type bpViolation struct {
 }
 
 type bpResult struct {
+	StructChecks int      `json:"struct_checks"`
+	Conforming   int      `json:"struct_conforming_histories"`
+	DriftCount   int      `json:"drift_count"`
+	Drift        []string `json:"drift"`
 	Histories   int           `json:"histories"`
 	Executions  int           `json:"executions"`
 	Ops         int           `json:"ops"`
@@ -86,6 +103,7 @@ type bpRun struct {
 	job    *bpJob
 	w, f   map[string]int
 	r      map[string]int
+	drifted bool
 }
 
 func (x *bpRun) fail(prop, kind, detail string) {
@@ -189,6 +207,56 @@ func (x *bpRun) checkLen(dir string, when string) {
 		return
 	}
 	x.fail("C06", "len", fmt.Sprintf("%s: Len()=%d, flushed-consumed=%d", when, got, want))
+}
+
+func (x *bpRun) classOf(sl *bufferSlice) int {
+	if !sl.isFromShm {
+		return 0
+	}
+	for i, l := range x.pair.A.bufferManager.lists {
+		if *l.capPerBuffer == sl.cap {
+			return i + 1
+		}
+	}
+	return -1
+}
+
+// project: the real slice-level structure of the writer's send buffer and the reader's read buffer
+func (x *bpRun) project() *bpExp {
+	e := &bpExp{Ws: [][]int{}, Rs: [][]int{}, Pinned: []int{}}
+	for _, l := range x.pair.A.bufferManager.lists {
+		e.Free = append(e.Free, int(*l.size))
+	}
+	if ws := x.writer("ab"); ws != nil {
+		i := 0
+		for sl := ws.sendBuf.sliceList.front(); sl != nil && i < ws.sendBuf.sliceList.size(); sl = sl.next() {
+			i++
+			e.Ws = append(e.Ws, []int{x.classOf(sl), sl.writeIndex})
+			if sl == ws.sendBuf.sliceList.writeSlice {
+				e.Wi = i
+			}
+		}
+	}
+	if rd := x.reader("ab"); rd != nil {
+		i := 0
+		for sl := rd.recvBuf.sliceList.front(); sl != nil && i < rd.recvBuf.sliceList.size(); sl = sl.next() {
+			i++
+			e.Rs = append(e.Rs, []int{x.classOf(sl), sl.readIndex, sl.writeIndex})
+			if sl == rd.recvBuf.sliceList.writeSlice {
+				e.Rwi = i
+			}
+		}
+		// (a slice moved to the pinned list keeps its old successor pointer: walk by the list's own length)
+		n := rd.recvBuf.pinnedList.size()
+		for sl := rd.recvBuf.pinnedList.front(); sl != nil && n > 0; sl, n = sl.next(), n-1 {
+			e.Pinned = append(e.Pinned, x.classOf(sl))
+		}
+		e.Cur = rd.recvBuf.currentPinned
+		if rd.sendBuf.sliceList.size() == 1 && rd.sendBuf.Len() == 0 {
+			e.Spare = x.classOf(rd.sendBuf.sliceList.front())
+		}
+	}
+	return e
 }
 
 func (x *bpRun) expect(dir string, start int, got []byte, what string) {
@@ -353,10 +421,29 @@ func (x *bpRun) op(e bpEdge) {
 	for d := range x.f {
 		x.checkLen(d, "after "+what)
 	}
+	if e.Exp != nil && !x.drifted {
+		x.res.StructChecks++
+		got := x.project()
+		jg, _ := json.Marshal(got)
+		je, _ := json.Marshal(e.Exp)
+		if string(jg) != string(je) {
+			x.drifted = true
+			x.res.DriftCount++
+			if len(x.res.Drift) < 5 {
+				x.res.Drift = append(x.res.Drift, fmt.Sprintf("[%s] after %s: real %s spec %s", x.conf.Name, what, jg, je))
+			}
+		}
+	}
 }
 
 // runHistory executes one history on a fresh stream of the (reused) pair.
 func (x *bpRun) runHistory(edges []bpEdge) {
+	x.drifted = false
+	defer func() {
+		if len(edges) > 0 && edges[0].Exp != nil && !x.drifted && x.viol == nil {
+			x.res.Conforming++
+		}
+	}()
 	x.views = map[string][]bpView{}
 	x.w, x.f, x.r = map[string]int{"ab": 0}, map[string]int{"ab": 0}, map[string]int{"ab": 0}
 	for _, e := range edges {
@@ -431,7 +518,7 @@ func TestVS_BytePipe(t *testing.T) {
 	if err := json.Unmarshal(b, &job); err != nil {
 		t.Fatal(err)
 	}
-	res := &bpResult{Violations: []bpViolation{}, Samples: []string{}}
+	res := &bpResult{Violations: []bpViolation{}, Samples: []string{}, Drift: []string{}}
 	defer func() {
 		out, _ := json.Marshal(res)
 		os.WriteFile(os.Getenv("VS_OUT"), out, 0o644)
@@ -441,6 +528,13 @@ func TestVS_BytePipe(t *testing.T) {
 	for i, e := range job.Edges {
 		edges[i] = bpEdge{Src: int(e[0].(float64)), Dst: int(e[1].(float64)), Op: e[2].(string), Dir: e[3].(string),
 			N: int(e[4].(float64)), Start: int(e[5].(float64)), Cnt: int(e[6].(float64))}
+		if len(e) > 7 && e[7] != nil {
+			raw, _ := json.Marshal(e[7])
+			var ex bpExp
+			if json.Unmarshal(raw, &ex) == nil {
+				edges[i].Exp = &ex
+			}
+		}
 		outE[edges[i].Src] = append(outE[edges[i].Src], i)
 	}
 	runs := make([]*bpRun, len(job.Confs))
